@@ -77,6 +77,13 @@ def sprinkle(cases, seed, p_bw=0.12, p_log=0.08, p_prior=0.08, p_version=0.12):
             c['debug_log'] = True
         if r.random() < p_prior and 'prior_use' not in c and not c.get('real'):
             c['prior_use'] = r.choice(['legacy', 'manager', 'overlap'])
+        ts_ = [t for t in c['transfers'] if isinstance(t, dict)]
+        if len(ts_) >= 2 and len(ts_) == len(c['transfers']) and not any('subs' in t or 'share_subs_with' in t for t in ts_) and not c.get('real') \
+                and r.random() < 0.08:
+            # ONE subscriber object for all the transfers of the manager
+            ts_[0]['subs'] = [{'flavor': 'shared'}]
+            for t in ts_[1:]:
+                t['share_subs_with'] = 0
         for t in c['transfers']:
             # subscriber classes whose callbacks are inherited / come from a mixin
             if isinstance(t, dict) and 'subs' not in t and r.random() < 0.06:
